@@ -34,6 +34,10 @@ fn layout(tokens: &[String], line_ends: &[usize], style: u8, rng: &mut Rng) -> L
             if rng.chance(1, 8) {
                 text.push_str(nl);
             }
+            // a closed comment at the start of the next line, followed by code on the same line
+            if style >= 2 && next.is_some() && rng.chance(1, 10) {
+                text.push_str(if rng.chance(1, 2) { "/* since v2 */ " } else { "-- since v2 -- " });
+            }
         } else if next == Some(",") || next == Some(";") {
         } else if style >= 2 && rng.chance(1, 40) && t != "..." {
             text.push_str(if style >= 4 { " /* ç */ " } else { " /* c */ " });
@@ -196,7 +200,15 @@ fn judge(b: &Built, o: &Observed, path: Option<&str>) -> Vec<(String, String)> {
             // contextualize omits blank lines by design: a blank (or absent, at end of input) error line cannot carry the marker
             let blank = input.lines().nth(o.line.saturating_sub(1)).map_or(true, |l| l.trim().is_empty());
             if !blank {
-                out.push(("context-no-marked-line".into(), format!("contextualize marks no line (report line {})", o.line)));
+                // where the reported line lies relative to the numbered lines of the excerpt
+                let shown: Vec<usize> = o.context.lines().filter_map(|l| l.trim_start().split('│').next().and_then(|n| n.trim().parse::<usize>().ok())).collect();
+                let place = match (shown.iter().min(), shown.iter().max()) {
+                    (None, _) | (_, None) => "empty-excerpt",
+                    (Some(_), Some(hi)) if o.line > *hi => "excerpt-ends-before-the-reported-line",
+                    (Some(lo), Some(_)) if o.line < *lo => "excerpt-starts-after-the-reported-line",
+                    _ => "reported-line-left-out-of-the-excerpt",
+                };
+                out.push((format!("context-no-marked-line|{place}"), format!("contextualize marks no line (report line {}; excerpt shows lines {:?}..{:?})", o.line, shown.iter().min(), shown.iter().max())));
             }
         }
     }
